@@ -382,17 +382,44 @@ def bound(e, ub):
 # ------------------------------------------------------------------------------------------------ R06.3
 def success_protocol(chk, repo, ms, f):
     cls = need_class(ms, 'RadialSolverSolution')
-    for name, m in methods(cls).items():
-        decos = [ast.unparse(d) for d in m.decorator_list]
-        returns_data = any(isinstance(r, ast.Return) and r.value is not None and not (isinstance(r.value, ast.Constant) and r.value.value is None) for r in ast.walk(m))
-        if name in ('__init__', '__dealloc__', '__len__') or not returns_data: continue
+    def is_none(v):
+        return v is None or (isinstance(v, ast.Constant) and v.value is None)
+
+    def unguarded_data_returns(fn_, owner_names, depth=0):
+        """returns of fn_ that hand out something other than None and can be reached without the test `<owner>.success` having come out true (CFG: the
+        true-edges of `if <owner>.success` and the false-edges of `if not <owner>.success` are removed; what is still reachable is unguarded).  A return that
+        only forwards the result of a module-level helper called with the owner is judged by that helper's own returns."""
+        g = CFG(fn_); H = g.G.copy()
+        for n, dct in g.G.nodes(data=True):
+            st = dct.get('stmt')
+            if isinstance(st, ast.If):
+                t = st.test; neg = False
+                if isinstance(t, ast.UnaryOp) and isinstance(t.op, ast.Not): t = t.operand; neg = True
+                if isinstance(t, ast.Attribute) and t.attr == 'success' and isinstance(t.value, ast.Name) and t.value.id in owner_names:
+                    for (u, v, ed) in list(H.out_edges(n, data=True)):
+                        if ed.get('kind') == ('false' if neg else 'true'):
+                            H.remove_edge(u, v)
         bad = []
-        for r in ast.walk(m):
-            if isinstance(r, ast.Return) and r.value is not None and not (isinstance(r.value, ast.Constant) and r.value.value is None):
-                # find the enclosing `if self.success` with r in its body
-                guarded = any(isinstance(i, ast.If) and ast.unparse(i.test) == 'self.success' and any(x is r for b in i.body for x in ast.walk(b)) for i in ast.walk(m))
-                if not guarded: bad.append(r.lineno)
-        chk.ob('R06.3', f'RadialSolverSolution.{name}: numeric data is returned only under `if self.success`', not bad, f'unguarded returns at lines {bad}', ms.where(m), key=f'R06.3|accessor|{name}', method='AST guard dominance')
+        for n, dct in g.G.nodes(data=True):
+            st = dct.get('stmt')
+            if isinstance(st, ast.Return) and not is_none(st.value) and n in H and nx.has_path(H, ENTRY, n):
+                v = st.value
+                if depth < 2 and isinstance(v, ast.Call) and isinstance(v.func, ast.Name) and isinstance(ms.defs.get(v.func.id), ast.FunctionDef):
+                    helper = ms.defs[v.func.id]
+                    pos = [i for i, a_ in enumerate(v.args) if isinstance(a_, ast.Name) and a_.id in owner_names]
+                    params = [a_.arg for a_ in helper.args.args]
+                    if pos and pos[0] < len(params):
+                        sub = unguarded_data_returns(helper, {params[pos[0]]}, depth + 1)
+                        bad += [f'{ln} (in {helper.name})' for ln in sub]
+                        continue
+                bad.append(st.lineno)
+        return bad
+    for name, m in methods(cls).items():
+        returns_data = any(isinstance(r, ast.Return) and not is_none(r.value) for r in ast.walk(m))
+        if name in ('__init__', '__dealloc__', '__len__') or not returns_data: continue
+        bad = unguarded_data_returns(m, {'self'})
+        chk.ob('R06.3', f'RadialSolverSolution.{name}: numeric data is returned only after `success` has been tested true', not bad, f'returns reachable without the test: lines {bad}', ms.where(m),
+               key=f'R06.3|accessor|{name}', method='CFG reachability with the success-test edges removed (helpers followed)')
     # success flag protocol in cf_radial_solver
     sets = [n for n in ast.walk(f) if isinstance(n, ast.Assign) and ast.unparse(n.targets[0]) == 'solution.success']
     ok = True; detail = []
